@@ -238,7 +238,7 @@ class Script:
         self.meta.append(meta)
         st["off"] = None   # unknown to the driver from here on (the trace spec tracks it)
 
-    def asm_file(self, i, keys, path, count=None, twin=True, expectfail=False):
+    def asm_file(self, i, keys, path, count=None, twin=True, expectfail=False, nulld=False):
         st = self._st(i)
         meta = {"prog": list(keys)}
         if expectfail:
@@ -254,6 +254,8 @@ class Script:
             fl = fl.replace("-", "") + "d"      # assemble_file, the deprecated alias
         if zlib.crc32(("fd0:%s:%d" % (self.sid, len(self.lines))).encode()) % 3 == 0:
             fl = fl.replace("-", "") + "c"      # with descriptor 0 free, so that the file is opened as descriptor 0
+        if nulld:
+            fl = fl.replace("-", "") + "z"      # the caller passes no place for the count
         tag = "t%d" % len(self.lines)
         if count is None:
             self.lines.append("T %d %s %s %s" % (i, fl, tag, hx(path)))
@@ -651,6 +653,8 @@ def run(prop, tier, replay=None):
             scripts += c13_boundary(L, rnd, tier)
         if prop == "C14":
             scripts += [x for x in c13_boundary(L, rnd, tier) if x.sid.startswith(("C13-g", "C13-q"))]
+        if prop == "C14":
+            scripts += [x for x in c19_scripts(L, rnd, tier) if x.sid.startswith("C19-end")]     # the file counting entry point at the end of the capacity
         if prop == "C15":
             scripts += [x for x in c13_boundary(L, rnd, tier) if x.sid.startswith("C13-qo")]
         if prop == "C07":
@@ -1093,6 +1097,22 @@ def c09_settings(L, rnd, tier):
                     sc.asm(1, [k3], [L.text[k3]], count=8)
                     sc.asm(1, [k3, bad], [L.text[k3], L.text[bad]])
                     out.append(sc)
+    # the debug listing (asm_set_debug) switched on, in every mode, at start offsets from 0 to the end of the buffer (what the listing
+    # prints is not judged; that printing it reads nothing outside the buffer is: the caller buffer ends 32 bytes before a guard page)
+    for c in (0, 8, 16, 1 << 32):
+        for kind, offs in (("ext", (0, 14, 300, 520, 560)), ("int", (0, 3000, 5950, 6000, 12100))):
+            for off in offs:
+                for second in ("asm", "count"):
+                    sc = Script("C09-g%d" % n); n += 1
+                    sc.create(1, kind, 600 if kind == "ext" else 0)
+                    sc.lines.append("G 1 1"); sc.meta.append({})
+                    sc.chunk(1, c)
+                    sc.offset(1, off)
+                    sc.asm(1, [k7, k3], [L.text[k7], L.text[k3]])
+                    sc.asm(1, [k3, k1, k3], [L.text[k3], L.text[k1], L.text[k3]], count=(8 if second == "count" else None))
+                    sc.lines.append("G 1 0"); sc.meta.append({})
+                    sc.asm(1, [k3], [L.text[k3]])
+                    out.append(sc)
     return out
 
 
@@ -1345,6 +1365,48 @@ def c19_scripts(L, rnd, tier):
             sc.asm_file(1, [], bad, count=cnt, expectfail=True)
             sc.asm(1, [k], [L.text[k]])
             out.append(sc)
+    # ... the same without a place for the count, and with names that contain printf conversions (the error paths print the name)
+    for bad in (os.path.join(d, "does-not-exist.asm"), d, "/proc/self/nonexistent/x.asm", os.path.join(d, "missing-%s%s%s%s%s%s.asm"),
+                os.path.join(d, "missing-%n%n%n%n.asm"), os.path.join(d, "100%.asm"), os.path.join(d, "%5000000d%s.asm")):
+        for cnt in (None, 1, 8):
+            for nulld in (False, True):
+                if nulld and cnt is None:
+                    continue
+                sc = Script("C19-badn%d" % n); n += 1
+                sc.create(1, "ext", 200)
+                k = L.bylen[3][0]
+                sc.asm(1, [k], [L.text[k]])
+                sc.asm_file(1, [], bad, count=cnt, expectfail=True, nulld=nulld)
+                sc.asm(1, [k], [L.text[k]])
+                out.append(sc)
+    # an existing file whose name contains conversions
+    pct = os.path.join(d, "ok-%s%n-%d.asm")
+    open(pct, "w").write(L.text[L.bylen[3][0]] + "\n")
+    for cnt in (None, 8):
+        sc = Script("C19-pct%d" % n); n += 1
+        sc.create(1, "ext", 200)
+        sc.asm_file(1, [L.bylen[3][0]], pct, count=cnt)
+        out.append(sc)
+    # start offsets at the end of the capacity: within the last 20 bytes of a library-managed buffer (fresh and grown) it grows, on a caller
+    # buffer a file without instructions needs no room
+    k3 = L.bylen[3][0]
+    f3 = os.path.join(d, "three.asm"); open(f3, "w").write(L.text[k3] + "\n" + L.text[k3] + "\n")
+    fnone = os.path.join(d, "none.asm"); open(fnone, "w").write("; nothing here\n\nlabel:\n")
+    for off in (5999, 6000, 6001, 6003, 6010, 6019, 6020, 12003, 12019):
+        for cnt in (None, 1, 7, 8):
+            sc = Script("C19-end%d" % n); n += 1
+            sc.create(1, "int", 0)
+            sc.offset(1, off)
+            sc.asm_file(1, [k3, k3], f3, count=cnt, twin=False)
+            sc.asm(1, [k3], [L.text[k3]])
+            out.append(sc)
+    for cap, off in ((100, 81), (100, 95), (100, 100), (40, 25)):
+        for cnt in (None, 8):
+            sc = Script("C19-endx%d" % n); n += 1
+            sc.create(1, "ext", cap)
+            sc.offset(1, off)
+            sc.asm_file(1, [], fnone, count=cnt)
+            out.append(sc)
     # a missing file whose path is several hundred characters long (the error path must cope with it)
     longbad = os.path.join(d, "a" * 200, "b" * 200, "c" * 200 + ".asm")
     longdir = os.path.join(d, "L" * 180, "M" * 180)
@@ -1432,6 +1494,12 @@ def c17_scenarios(L, rnd):
         sc.asm(1, small, [L.text[k] for k in small])
         sc.asm_file(1, small, smallfile, count=cnt, twin=False)
         sc.asm_file(1, long_keys[: 6100 // bl], bigfile, count=cnt, twin=False)
+        sc.asm(1, small, [L.text[k] for k in small])
+        sc.destroy(1)
+    for cnt in (1, 8):
+        sc = S("file-count%d-nulldest" % cnt); sc.create(1, "int", 0)
+        sc.asm(1, small, [L.text[k] for k in small])
+        sc.asm_file(1, small, smallfile, count=cnt, twin=False, nulld=True)
         sc.asm(1, small, [L.text[k] for k in small])
         sc.destroy(1)
     # a path several hundred characters long (the error paths format it)
